@@ -500,6 +500,13 @@ def admissible(real, op):
     if md is not None and "unitary_dict" in md:
         if "unitary_dict" not in real.models[op["slot"]].__dict__ or (t == "saverSave" and op["metadataOnly"]):
             return False
+    if t == "train" and op.get("bases"):
+        # a ComplexWaveFunction whose parameters are ALL exactly zero (only reachable through a zero_weights=True module) is the uniform
+        # real state: an X-basis outcome "1" then has probability exactly 0, its log-likelihood gradient is 0/0 and `fit` fills the
+        # parameters with NaN (a later Gibbs step raises RuntimeError). Training from that point is outside the domain of the property.
+        st = real.models[op["slot"]]
+        if isinstance(st, ComplexWaveFunction) and all(bool(torch.all(p == 0)) for n in st.networks for p in getattr(st, n).parameters()):
+            return False
     if t == "constructFrom":
         mod = real.modules[op["mslot"]]
         # a PurificationRBM handed to a wavefunction state is accepted by the constructors but meaningless
